@@ -841,6 +841,13 @@ def dump_one(f: TextIO, data: IOData):
         else:
             angmom_kinds[angmom] = kind
 
+    # Pure h functions are not part of the Molden standard. As in files written by
+    # PSI4 and ORCA, they are flagged together with the g functions by [9G].
+    if 5 in angmom_kinds and angmom_kinds.setdefault(4, angmom_kinds[5]) != angmom_kinds[5]:
+        raise DumpError(
+            "Molden format does not support mixed pure+Cartesian g and h functions.", f
+        )
+
     # Fill in some defaults (Cartesian) for angmom kinds if needed.
     angmom_kinds.setdefault(2, "c")
     angmom_kinds.setdefault(3, "c")
